@@ -14,7 +14,8 @@ import (
 	"pgregory.net/rapid"
 )
 
-var c14Alphabet = []rune{'a', 'b', 0xe9, 0x20ac, 0x1f600, '\'', '"', '\\', '\n', 0, 0x7f, ' '}
+// 0x161 and 0x2020 end in the bytes of 'a' and ' ': a code point must never be taken for the ASCII character of its low byte
+var c14Alphabet = []rune{'a', 'b', 0xe9, 0x20ac, 0x1f600, '\'', '"', '\\', '\n', 0, 0x7f, ' ', 0x161}
 
 const c14Prelude = `_res = []
 def t(f):
@@ -38,6 +39,7 @@ def ops(s):
     _res.append((s, 'xslice', [s[::-1], s[::2], s[1::2], s[-1::-2], s[:-1:1], s[2:0:-1]]))
     _res.append((s, 'case', s.upper(), s.lower()))
     _res.append((s, 'strip', s.strip(), s.lstrip(), s.rstrip(), s.strip('a'), s.lstrip('ab'), s.rstrip('b '), t(lambda: s.strip(None))))
+    _res.append((s, 'strip2', [(s.strip(c), s.lstrip(c), s.rstrip(c)) for c in STRIPS]))
     _res.append((s, 'split', s.split(), t(lambda: s.split('a')), t(lambda: s.split(' ')), t(lambda: s.split('a', 1)), t(lambda: s.split(None, 1)), t(lambda: s.split('ab')), t(lambda: s.split(''))))
     _res.append((s, 'mul', s * 0, s * 2, 2 * s, s * -1))
     _res.append((s, 'join', s.join(['x', 'y', 'z']), s.join([]), s.join(['q']), ''.join([s, s]), t(lambda: s.join([1]))))
@@ -62,6 +64,7 @@ def rt(x):
 def cmp(a, b):
     _res.append((a, 'cmp', b, a == b, a != b, a < b, a <= b, a > b, a >= b))
 SL = [None, -3, -1, 0, 1, 2, 4]
+STRIPS = ['a', 'b', '\u00e9', '\u20ac', '\U0001f600', "'", '"', '\\', '\n', '\0', '\x7f', ' ', '\u0161', '\u2020', 'a\u0161', '\u00e9 ', '\0\n', '', 'ab \n', '\u0161\u20ac\U0001f600']
 RNG = [None, -5, -2, -1, 0, 1, 2, 3, 5]
 `
 
